@@ -460,6 +460,78 @@ RemoveTensorContract(ev, M) ==
           \o (IF ev.a.what = "remove" /\ ev.a.checksym
               THEN Clause("block-symmetry", symbad = {}, symbad) ELSE <<>>)
 
+(* -- reported symmetries and lossless decompositions (C10) ------------------------ *)
+(* Permutation operators act on the EXPRESSION one after another in the    *)
+(* listed order: X -> P1 X -> P2 (P1 X), (P_pq X)(sig) = X(sig o t_pq).    *)
+(* Hence (P2 P1 X)(sig) = X(sig o t2 o t1): on the assignment the          *)
+(* transpositions are applied in REVERSE order.  SwapAll(sig, ps, 1).      *)
+RECURSIVE SwapAll(_, _, _)
+SwapAll(sig, ps, k) ==
+  IF k > Len(ps) THEN sig
+  ELSE LET j == Len(ps) + 1 - k IN
+       SwapAll([sig EXCEPT ![ps[j][1]] = sig[ps[j][2]], ![ps[j][2]] = sig[ps[j][1]]], ps, k + 1)
+
+(* Term.symmetry / Obj.symmetry: ev.pre is ONE term, every index of it is   *)
+(* listed in ev.tgt (summand level); ev.a.syms = Seq([ps, f])               *)
+SymmetryContract(ev, M) ==
+  LET tg == SeqRange(ev.tgt)
+      px == PrepExpr(ev.pre)
+      bad == {k \in 1..Len(ev.a.syms) :
+                \E sig \in Assignments(ev.tgt, ev.idx, M) :
+                  ValP(px, ev.idx, SwapAll(sig, ev.a.syms[k].ps, 1), M) #
+                  FMul(IF ev.a.syms[k].f = 1 THEN 1 ELSE P - 1, ValP(px, ev.idx, sig, M))}
+  IN IF ~ExprOrdOk(ev.pre, tg) THEN << <<"ord", "loop order">> >>
+     ELSE Clause("reported-symmetry", bad = {}, {ev.a.syms[k] : k \in bad})
+
+(* decompositions: ev.a.parts = Seq([perms : Seq([ps, f]), x : expr,        *)
+(* key : Seq(STRING)]); value of the original = sum over the parts of       *)
+(* (1 + sum_k f_k P_k) x                                                   *)
+BlockString(o, ev) == LET ix == ObjIdxSeq(o) IN [k \in 1..Len(ix) |-> ev.idx[ix[k]].s]
+RECURSIVE TermBlocks(_, _, _, _)
+TermBlocks(t, nid, ev, k) ==       \* blocks of the tensors named nid, with exponent multiplicity
+  IF k > Len(t.objs) THEN <<>>
+  ELSE (IF t.objs[k].nid = nid /\ t.objs[k].k \in {"A", "S", "M", "N"}
+        THEN [j \in 1..t.objs[k].e |-> BlockString(t.objs[k], ev)] ELSE <<>>)
+       \o TermBlocks(t, nid, ev, k + 1)
+RECURSIVE TermDeltaBlocks(_, _, _)
+TermDeltaBlocks(t, ev, k) ==
+  IF k > Len(t.objs) THEN <<>>
+  ELSE (IF t.objs[k].k = "D" THEN <<BlockString(t.objs[k], ev)>> ELSE <<>>) \o TermDeltaBlocks(t, ev, k + 1)
+
+DecompContract(ev, M) ==
+  LET tg == SeqRange(ev.tgt)
+      parts == ev.a.parts
+      pp == TLCEval([k \in 1..Len(parts) |-> PrepExpr(parts[k].x)])
+      px == PrepExpr(ev.pre)
+      recon(sig) ==
+        FoldSet(LAMBDA k, a :
+                  FAdd(a, FAdd(ValP(pp[k], ev.idx, sig, M),
+                               FoldSet(LAMBDA j, b :
+                                         FAdd(b, FMul(IF parts[k].perms[j].f = 1 THEN 1 ELSE P - 1,
+                                                      ValP(pp[k], ev.idx, SwapAll(sig, parts[k].perms[j].ps, 1), M))),
+                                       0, 1..Len(parts[k].perms)))),
+                0, 1..Len(parts))
+      bad == {sig \in Assignments(ev.tgt, ev.idx, M) : ValP(px, ev.idx, sig, M) # recon(sig)}
+      ordok == ExprOrdOk(ev.pre, tg) /\ \A k \in 1..Len(parts) : ExprOrdOk(parts[k].x, tg)
+      keyok(k) ==
+        CASE ev.a.sorter = "by_tensor_block" ->
+               \A j \in 1..Len(parts[k].x) :
+                  LET bl == TermBlocks(parts[k].x[j], ev.a.nid, ev, 1) IN
+                  IF bl = <<>> THEN parts[k].key = << <<"n", "o", "n", "e">> >>
+                  ELSE SeqBag(bl) = SeqBag(parts[k].key)
+          [] ev.a.sorter = "by_delta_types" ->
+               \A j \in 1..Len(parts[k].x) :
+                  LET bl == TermDeltaBlocks(parts[k].x[j], ev, 1) IN
+                  IF bl = <<>> THEN parts[k].key = << <<"n", "o", "n", "e">> >>
+                  ELSE SeqBag(bl) = SeqBag(parts[k].key)
+          [] OTHER -> TRUE
+  IN IF ~ordok THEN << <<"ord", "loop order">> >>
+     ELSE (IF bad = {} THEN <<>>
+           ELSE LET sig == CHOOSE s \in bad : TRUE IN
+                << <<"val", [n |-> Cardinality(bad), at |-> sig,
+                            lhs |-> ValP(px, ev.idx, sig, M), rhs |-> recon(sig)]>> >>)
+          \o Clause("key", \A k \in 1..Len(parts) : keyok(k), {k \in 1..Len(parts) : ~keyok(k)})
+
 (* -- the contract per operation ------------------------------------------ *)
 Contract(ev, M) ==
   CASE ev.op = "valpres" -> ValEq(ev, M, ev.pre, ev.post)
@@ -468,6 +540,8 @@ Contract(ev, M) ==
     [] ev.op = "simplify_unitary" -> UnitaryContract(ev, M)
     [] ev.op = "wicks" -> WicksContract(ev, M)
     [] ev.op = "tensor" -> TensorContract(ev, M)
+    [] ev.op = "symmetry" -> SymmetryContract(ev, M)
+    [] ev.op = "decomposition" -> DecompContract(ev, M)
     [] ev.op = "remove_tensor" -> RemoveTensorContract(ev, M)
     [] ev.op = "scheme" -> SchemeContract(ev, M)
     [] ev.op = "order_substitutions" -> OrderSubsContract(ev, M)
